@@ -118,6 +118,7 @@ def build(which="mapper"):
     extract_struct(u, st, "StackFrame")
     extract_struct(u, st, "Throwable")
     u.raw(RFI_INSIDE[which], "glue")
+    u.raw(contract("std_specs.rs"), "std_specs")
     u.raw(contract("peek_model.rs"), "peek_model")
     u.raw(contract("text_trace_model.rs"), "text_trace_model")
     u.raw(MODEL, "model")
